@@ -138,6 +138,20 @@ def ofDayChecked (n : Int) : Out (Int × Nat × Int) :=
   let y := yearOf n
   if n < newYear y ∨ n ≥ newYear y + yearLength y then .panic else .ok (ofDay n)
 
+/-- `Keviyah::days_preceding(ordinal month)`: the closed form `date_to_iso` uses (a table of the regular lengths,
+    plus the year's length correction after Kislev, plus Adar I from Adar on in a leap year). -/
+def daysPreceding (y : Int) (m : Nat) : Int :=
+  let leap := isLeap y
+  if leap ∧ m = 6 then 148 + corr y
+  else
+    let n := if leap ∧ m > 6 then m - 1 else m
+    let days : Int :=
+      if n = 1 then 0 else if n = 2 then 30 else if n = 3 then 30 + (if corr y = 1 then 30 else 29)
+      else if n = 4 then 89 else if n = 5 then 118 else if n = 6 then 148 else if n = 7 then 177
+      else if n = 8 then 207 else if n = 9 then 236 else if n = 10 then 266 else if n = 11 then 295 else 325
+    let days := if n > 3 then days + corr y else days
+    if n ≥ 6 ∧ leap then days + 30 else days
+
 /-- The month code the library reports for ordinal month `m` of year `y` (`standard_code`). -/
 def codeOf (y : Int) (m : Nat) : MonthCode :=
   if isLeap y then (if m = 6 then ⟨5, true⟩ else if m > 6 then ⟨m - 1, false⟩ else ⟨m, false⟩) else ⟨m, false⟩
@@ -187,7 +201,7 @@ def hebrewFromCodes (era : Option String) (y : Int) (code : MonthCode) (d : Int)
   else match Heb.ordOf y code with
     | none => none
     | some m => if d ≤ 0 ∨ d > Heb.monthLen y m then none
-                else some (Heb.newYear y + hebrewSpec.before y (m - 1) + (d - 1))
+                else some (Heb.newYear y + Heb.daysPreceding y m + (d - 1))
 
 end Cal
 end TemporalModel
